@@ -66,6 +66,117 @@ Definition dis_add (d : dis) (command : str) (plugin : option str) : dis :=
       end
   end.
 
+(* del self.d[command] *)
+Definition dict_del {A} (k : str) (d : list (str * A)) : list (str * A) :=
+  filter (fun kv => negb (seq_eqb k (fst kv))) d.
+
+(* DisabledCommands.remove: KeyError when the command has no entry, or the plugin is not in its set;
+   a per-plugin removal on an everywhere-entry (None) is a no-op without error *)
+Definition dis_remove (d : dis) (command : str) (plugin : option str) : res dis :=
+  match dict_get (canon command) d with
+  | None => Raise KeyError
+  | Some v =>
+      match plugin with
+      | None => Ok (dict_del (canon command) d)
+      | Some p =>
+          match v with
+          | None => Ok d
+          | Some set =>
+              if existsb (seq_eqb (canon p)) set
+              then Ok (dict_set (canon command) (Some (filter (fun x => negb (seq_eqb (canon p) x)) set)) d)
+              else Raise KeyError
+          end
+      end
+  end.
+
+(* ---- Owner.disable / Owner.enable as operations on (Commands._disabled, supybot.commands.disabled) ----
+   [plugin] is cb.name() of the plugin the `plugin` converter found, [c] the canonical command name
+   produced by the `commandName` converter. *)
+Inductive op : Type :=
+| ODisable (plugin : option str) (c : str)
+| OEnable (plugin : option str) (c : str).
+
+Definition forbidden (c : str) : bool := existsb (seq_eqb c) gen.T14.UNDISABLABLE.
+
+Record ostate := OState { o_d : dis; o_conf : list str }.   (* conf: the CanonicalNameSet behind supybot.commands.disabled *)
+
+Definition conf_key (plugin : option str) (c : str) : str :=
+  canon (match plugin with Some p => p ++ [46] ++ c | None => c end).   (* '%s.%s' % (plugin.name(), command) *)
+Definition conf_has (k : str) (conf : list str) : bool := existsb (seq_eqb k) conf.
+Definition conf_add (k : str) (conf : list str) : list str := if conf_has k conf then conf else conf ++ [k].
+Definition conf_remove (k : str) (conf : list str) : list str := filter (fun x => negb (seq_eqb k x)) conf.
+
+Section OwnerOps.
+Variable has_cmd : str -> str -> bool.   (* plugin name, command: a canonical command method of that plugin exists *)
+
+(* returns the new state and whether replySuccess (true) or irc.error (false) was sent *)
+Definition owner_step (st : ostate) (o : op) : ostate * bool :=
+  match o with
+  | ODisable plugin c =>
+      if forbidden c then (st, false)
+      else match plugin with
+           | Some p =>
+               if negb (dis_disabled (o_d st) c p) && has_cmd p c            (* plugin.isCommand(command) *)
+               then (OState (dis_add (o_d st) c (Some p)) (conf_add (conf_key plugin c) (o_conf st)), true)
+               else (st, false)
+           | None => (OState (dis_add (o_d st) c None) (conf_add (conf_key None c) (o_conf st)), true)
+           end
+  | OEnable plugin c =>
+      match dis_remove (o_d st) c plugin with                                (* in-memory table first ... *)
+      | Raise _ => (st, false)
+      | Ok d' =>
+          if conf_has (conf_key plugin c) (o_conf st)                        (* ... then the registry value *)
+          then (OState d' (conf_remove (conf_key plugin c) (o_conf st)), true)
+          else (OState d' (o_conf st), false)                               (* KeyError: reported as refused, d' stays *)
+      end
+  end.
+
+Definition owner_run (st : ostate) (ops : list op) : ostate :=
+  fold_left (fun s o => fst (owner_step s o)) ops st.
+
+(* ---- documented semantics: disabled everywhere until enabled everywhere, disabled in a plugin until
+   enabled in that plugin, a refused operation changes nothing ---- *)
+Record sstate := SState { s_G : list str; s_P : list (str * str) }.   (* canonical names *)
+Definition memG (k : str) (G : list str) : bool := existsb (seq_eqb k) G.
+Definition memP (q k : str) (P : list (str * str)) : bool :=
+  existsb (fun e => seq_eqb q (fst e) && seq_eqb k (snd e)) P.
+Definition anyP (k : str) (P : list (str * str)) : bool := existsb (fun e => seq_eqb k (snd e)) P.
+Definition spec_disabled (S : sstate) (c p : str) : bool :=
+  memG (canon c) (s_G S) || memP (canon p) (canon c) (s_P S).
+
+Definition spec_step (S : sstate) (o : op) : sstate * bool :=
+  match o with
+  | ODisable None c =>
+      if forbidden c then (S, false) else (SState (canon c :: s_G S) (s_P S), true)
+  | ODisable (Some p) c =>
+      if forbidden c then (S, false)
+      else if negb (spec_disabled S c p) && has_cmd p c
+           then (SState (s_G S) ((canon p, canon c) :: s_P S), true) else (S, false)
+  | OEnable None c =>
+      if memG (canon c) (s_G S)
+      then (SState (filter (fun x => negb (seq_eqb (canon c) x)) (s_G S)) (s_P S), true) else (S, false)
+  | OEnable (Some p) c =>
+      if memP (canon p) (canon c) (s_P S)
+      then (SState (s_G S) (filter (fun e => negb (seq_eqb (canon p) (fst e) && seq_eqb (canon c) (snd e))) (s_P S)), true)
+      else (S, false)
+  end.
+Definition spec_run (S : sstate) (ops : list op) : sstate := fold_left (fun s o => fst (spec_step s o)) ops S.
+
+(* histories on which the pinned code follows the documented semantics: no everywhere-disable and no
+   (refused) everywhere-enable of a command that currently has per-plugin entries *)
+Definition bad_op (S : sstate) (o : op) : bool :=
+  match o with
+  | ODisable None c => negb (forbidden c) && anyP (canon c) (s_P S)
+  | OEnable None c => negb (memG (canon c) (s_G S)) && anyP (canon c) (s_P S)
+  | _ => false
+  end.
+Fixpoint hist_dom (S : sstate) (ops : list op) : bool :=
+  match ops with
+  | [] => true
+  | o :: ops' => negb (bad_op S o) && hist_dom (fst (spec_step S o)) ops'
+  end.
+End OwnerOps.
+
 Record env := Env {
   e_cbs : list plug;                 (* irc.callbacks, in order *)
   e_dis : dis;                       (* Commands._disabled *)
@@ -511,10 +622,34 @@ Definition vStatus (s : status) : value :=
   | Running st => L [vN 1; L (map vCall (m_log st))]            (* fuel exhausted: never for machine *)
   end.
 
+(* history steps: (0 plugin? cmd) disable, (1 plugin? cmd) enable, (2 strs) a flat command line *)
+Definition has_cmd_of (cbs : list plug) (p c : str) : bool :=
+  match find (fun q => seq_eqb (p_name q) p) cbs with
+  | Some q => seq_eqb c (canon c) && existsb (seq_eqb c) (p_meths q)
+  | None => false
+  end.
+Definition vDis (d : dis) : value := L (map (fun kv => L [vS (fst kv); vO vLS (snd kv)]) d).
+
+Fixpoint hist_run (E : env) (B : behs) (K : config) (st : ostate) (steps : list value) : list value :=
+  match steps with
+  | [] => []
+  | s :: steps' =>
+      match gN (nth_v 0 s) with
+      | 2 =>
+          let E' := Env (e_cbs E) (o_d st) (e_defaults E) (e_important E) in
+          vStatus (machine (final_of E' B) K (map AStr (gLS (nth_v 1 s)))) :: hist_run E B K st steps'
+      | tag =>
+          let o := (match tag with 0 => ODisable | _ => OEnable end) (gO gS (nth_v 1 s)) (gS (nth_v 2 s)) in
+          let '(st', ok) := owner_step (has_cmd_of (e_cbs E)) st o in
+          L [vB ok; vDis (o_d st'); vLS (o_conf st')] :: hist_run E B K st' steps'
+      end
+  end.
+
 (* run: (op payload)
    op 0: evaluate  payload = (env behs maxnest budget tokens) -> (machine status, spec log, spec outcome)
    op 1: dispatch  payload = (env strs) -> (maxL, names of cbs)
-   op 2: canonicalName payload = str -> str *)
+   op 2: canonicalName payload = str -> str
+   op 3: history   payload = (env behs steps) -> per step: (ok, _disabled.d, conf list) | machine status *)
 Definition run (v : value) : value :=
   let payload := nth_v 1 v in
   match gN (nth_v 0 v) with
@@ -530,5 +665,10 @@ Definition run (v : value) : value :=
       let r := findCallbacksForArgs E (gLS (nth_v 1 payload)) in
       L [vLS (fst r); vLS (map p_name (snd r))]
   | 2 => vS (canon (gS payload))
+  | 3 =>
+      let E := gEnv (nth_v 0 payload) in
+      let B := gBehs (nth_v 1 payload) in
+      let K := Config gen.T14.NESTED_MAX_DEFAULT 50 (crash_res B (b_indexerr B)) in
+      L (hist_run E B K (OState (e_dis E) []) (gL (nth_v 2 payload)))
   | _ => L []
   end.
